@@ -231,8 +231,25 @@ LoopLocal(p) ==
                  Asg("big", 0, <<IxN(1), IxN(1)>>, As("i64", RV("n"))),
                  SetV("total", Bin("+", RV("total"), Ref("big", 0, <<IxN(1), IxN(1)>>))),
                  SetV("n", Bin("+", RV("n"), Lit("i32", 1))), LP_, C_, Lbl("out"), Pr(RV("total")), Pr(RV("n"))>>
-    IN Program(<<>>, <<>>, <<MainFn(IF p.big THEN big ELSE small)>>)
-LoopLocalParams == {[fam |-> "looplocal", t |-> t, k |-> k, label |-> l, big |-> FALSE] : t \in {"i32", "u8", "i128"}, k \in {1, 3}, l \in BOOLEAN}
+        \* declarations whose initial value is a compile-time constant AGGREGATE (an all-literal array, structure, word): each
+        \* iteration starts from the initial value again, whatever the previous iteration stored
+        pt == PrimT(T)
+        agg == <<VarI("n", i32, Lit("i32", 0)), O_, IG_(Cmp(">=", RV("n"), Lit("i32", p.k)), "out"),
+                 VarI("ca", ArrT(3, pt), ArrE(<<Lit(T, 1), Lit(T, 2), Lit(T, 3)>>)),
+                 VarI("cs", NamedT("PS"), StE("PS", <<Fld("a", Lit("i32", 10)), Fld("b", Lit("i32", 20)), Fld("c", Lit("i32", 30))>>)),
+                 VarI("cw", NamedT("W16"), StE("W16", <<Fld("a", Lit("u8", 4)), Fld("b", Lit("u8", 5))>>)),
+                 VarI("cm", ArrT(2, ArrT(2, pt)), ArrE(<<ArrE(<<Lit(T, 1), Lit(T, 2)>>), ArrE(<<Lit(T, 3), Lit(T, 4)>>)>>)),
+                 Pr(Ref("ca", 0, <<IxN(1)>>)), Pr(Ref("cs", 0, <<Mb("b")>>)), Pr(Ref("cw", 0, <<Mb("a")>>)), Pr(Ref("cm", 0, <<IxN(1), IxN(0)>>)),
+                 Asg("ca", 0, <<IxN(1)>>, Bin("+", Ref("ca", 0, <<IxN(1)>>), Lit(T, 5))),
+                 Asg("cs", 0, <<Mb("b")>>, Bin("+", Ref("cs", 0, <<Mb("b")>>), Lit("i32", 7))),
+                 Asg("cw", 0, <<Mb("a")>>, Bin("+", Ref("cw", 0, <<Mb("a")>>), Lit("u8", 1))),
+                 Asg("cm", 0, <<IxN(1), IxN(0)>>, Bin("+", Ref("cm", 0, <<IxN(1), IxN(0)>>), Lit(T, 9))),
+                 Pr(Ref("ca", 0, <<IxN(1)>>)), Pr(Ref("cs", 0, <<Mb("b")>>)), Pr(Ref("cw", 0, <<Mb("a")>>)), Pr(Ref("cm", 0, <<IxN(1), IxN(0)>>)),
+                 SetV("n", Bin("+", RV("n"), Lit("i32", 1))), LP_, C_, Lbl("out"), Pr(RV("n"))>>
+        aggdecls == <<SD("PS", <<Mem("a", i32), Mem("b", i32), Mem("c", i32)>>), WD("W16", 16, <<Mem("a", PrimT("u8")), Mem("b", PrimT("u8"))>>)>>
+    IN IF "agg" \in DOMAIN p /\ p.agg THEN Program(aggdecls, <<>>, <<MainFn(agg)>>)
+       ELSE Program(<<>>, <<>>, <<MainFn(IF p.big THEN big ELSE small)>>)
+LoopLocalParams == {[fam |-> "looplocal", t |-> t, k |-> 3, label |-> FALSE, big |-> FALSE, agg |-> TRUE] : t \in {"i32", "u8", "i64"}} \cup {[fam |-> "looplocal", t |-> t, k |-> k, label |-> l, big |-> FALSE] : t \in {"i32", "u8", "i128"}, k \in {1, 3}, l \in BOOLEAN}
                    \cup {[fam |-> "looplocal", t |-> "i64", k |-> k, label |-> FALSE, big |-> TRUE] : k \in {2} \cup (IF Big THEN {300} ELSE {})}
 
 (**************************** wordcopy **************************************)
